@@ -16,6 +16,8 @@ Item = TypeVar("Item", bound=Hold)
 class HoldList(NoteList[Item]):
     def last_offset(self) -> float:
         """Get Last Note Offset. This includes the tail"""
+        if len(self.df) == 0:
+            return None
         return max(self.offset + self.length)
 
     def first_last_offset(self) -> Tuple[float, float]:
@@ -108,6 +110,8 @@ class HoldList(NoteList[Item]):
         include_head: bool = True,
         include_tail: bool = False,
     ) -> HoldList:
+        if isinstance(include_ends, bool):
+            include_ends = (include_ends, include_ends)
         return self.after(
             lower_bound, include_end=include_ends[0], include_tail=include_tail
         ).before(upper_bound, include_end=include_ends[1], include_head=include_head)
